@@ -84,6 +84,62 @@ type c04State struct {
 	done    atomic.Int64
 	signal  chan struct{} // poked on every handler entry / exit
 	slow    bool          // a long wait already timed out in this case: keep the remaining ones short
+	fmu     sync.Mutex
+	flights map[int64]c04Flight // registry calls that have started and not yet returned
+	fseq    int64
+	hung    string // non-empty: the case was abandoned, with what was in flight
+}
+
+// a registry call in flight: who issued it and since when
+type c04Flight struct {
+	desc  string
+	since time.Time
+}
+
+// "registering or removing handlers from within a handler neither deadlocks ..." is part of the
+// property: a registry call or an event's handlers that have not completed within this budget
+// (normal: microseconds) make the case "hung"
+const c04Budget = 3 * time.Second
+
+// cases abandoned as hung in this run; after 3 the run stops executing cases
+var c04HungCases int
+
+func (st *c04State) enter(o c04Op, who string) int64 {
+	st.fmu.Lock()
+	defer st.fmu.Unlock()
+	st.fseq++
+	arg := fmt.Sprintf("name=%q hid=%d rid=%d", o.name, o.a, o.b)
+	if strings.HasSuffix(o.op, "R") {
+		arg = fmt.Sprintf("rid=%d", o.a)
+	}
+	st.flights[st.fseq] = c04Flight{fmt.Sprintf("%s %s issued by %s", o.op, arg, who), time.Now()}
+	return st.fseq
+}
+func (st *c04State) leave(id int64) {
+	st.fmu.Lock()
+	delete(st.flights, id)
+	st.fmu.Unlock()
+}
+
+// the registry calls that have been in flight for longer than d (oldest first)
+func (st *c04State) stuck(d time.Duration) string {
+	st.fmu.Lock()
+	defer st.fmu.Unlock()
+	ids := make([]int64, 0)
+	for id, f := range st.flights {
+		if time.Since(f.since) > d {
+			ids = append(ids, id)
+		}
+	}
+	sort.Slice(ids, func(i, j int) bool { return ids[i] < ids[j] })
+	var out []string
+	for _, id := range ids {
+		out = append(out, st.flights[id].desc)
+	}
+	return strings.Join(out, "; ")
+}
+func (st *c04State) inFlight() string {
+	return st.stuck(-1)
 }
 
 func (st *c04State) poke() {
@@ -94,7 +150,7 @@ func (st *c04State) poke() {
 }
 
 // one registry operation, stamped; used by the main goroutine, by handler scripts and by free goroutines
-func (st *c04State) perform(o c04Op) {
+func (st *c04State) perform(o c04Op, who string) {
 	switch strings.TrimLeft(o.op, "ng") {
 	case "H", "HF", "B":
 		hid, rid := o.a, o.b
@@ -105,6 +161,7 @@ func (st *c04State) perform(o c04Op) {
 		h := st.handler(kind, hid)
 		rec := &c04RegRec{}
 		var rm client.Remover
+		fid := st.enter(o, who)
 		rec.start = st.clock.Add(1)
 		switch strings.TrimLeft(o.op, "ng") {
 		case "H":
@@ -115,6 +172,7 @@ func (st *c04State) perform(o c04Op) {
 			rm = st.ws.Conn.HandleBG(o.name, h)
 		}
 		rec.ret = st.clock.Add(1)
+		st.leave(fid)
 		st.mu.Lock()
 		st.regs[rid] = rec
 		st.rems[rid] = rm
@@ -138,9 +196,11 @@ func (st *c04State) perform(o c04Op) {
 		if !ok {
 			return
 		}
+		fid := st.enter(o, who)
 		t0 := st.clock.Add(1)
 		rm.Remove()
 		t1 := st.clock.Add(1)
+		st.leave(fid)
 		st.mu.Lock()
 		rec.rmStart, rec.rmRet = t0, t1
 		st.mu.Unlock()
@@ -173,7 +233,7 @@ func (st *c04State) handler(kind, hid int) client.HandlerFunc {
 		st.mu.Unlock()
 		st.poke()
 		for _, o := range script {
-			st.perform(o)
+			st.perform(o, fmt.Sprintf("handler hid=%d (set %d) while running for event %d", hid, kind, serial))
 		}
 		st.done.Add(1)
 		st.poke()
@@ -193,10 +253,22 @@ func (st *c04State) waitFor(d time.Duration, cond func() bool) bool {
 		d = 300 * time.Millisecond
 	}
 	long := d >= time.Second
+	return st.waitUntil(d, long, cond)
+}
+
+// waitHard is waitFor without the shortening: used for the hang budget
+func (st *c04State) waitHard(d time.Duration, cond func() bool) bool {
+	return st.waitUntil(d, false, cond)
+}
+
+func (st *c04State) waitUntil(d time.Duration, long bool, cond func() bool) bool {
 	deadline := time.Now().Add(d)
 	for {
 		if cond() {
 			return true
+		}
+		if st.stuck(c04Budget) != "" {
+			return false
 		}
 		left := time.Until(deadline)
 		if left <= 0 {
